@@ -14,16 +14,18 @@ from ..model import text, walk_fn
 
 def rule_line_split(run, prog, rid="R-9.7"):
     run.rule(rid, "sibling agreement with the lexer's notion of a line: token text / source text is cut into lines only by "
-             "split('\\n') (never splitlines(), never another separator set) in rules/ and context.py", floor=1)
+             "split('\\n') (never splitlines(), never another separator set) outside the lexer", floor=1)
     n = 0
     for fn in prog.fns:
-        if not (fn.mod.rel.startswith("rules/") or fn.mod.rel == "context.py"):
-            continue
+        if fn.mod.rel in ("__main__.py", "lexer/lexer.py"):
+            continue                        # the lexer itself reads characters; main cuts no token text
         for c in walk_fn(fn.node):
             if not (isinstance(c, ast.Call) and isinstance(c.func, ast.Attribute)):
                 continue
             recv = text(c.func.value)
-            about_text = ".value" in recv or "source" in recv or "header" in recv
+            # token text, or a helper's string parameter (a helper that cuts lines for the rules, e.g. in lexer/tokens.py)
+            about_text = ".value" in recv or "source" in recv or "header" in recv \
+                or (isinstance(c.func.value, ast.Name) and c.func.value.id in fn.params)
             if c.func.attr == "splitlines" and about_text:
                 n += 1
                 run.ob(rid, f"{fn.key}::line-split[{text(c, 50)}]", False,
